@@ -149,6 +149,7 @@ def build_traces(path, tier, seed):
     # records timed in units so extreme that w^2, w^3 dt leave the double range (dt = 1e-110 / 1e110): listed as an open finding
     # (known_findings.json, C01-extreme-time-unit); exercised on every run so that the finding is re-observed, never suppressing
     # anything else (its failures are reported under their own clause and site)
+    from eqsig import sdof
     for j, (dt_, ratio_) in enumerate([(1.0e-110, 4.0), (1.0e110, 50.0)]):
         a = np.array([0.0, 1.0, -1.0, 2.0, 0.5, -0.3, 0.8])
         try:
